@@ -256,11 +256,12 @@ def fn_indexed(spec, rec):
     from glue.core.data_derived import IndexedData
     parent = gen.build_data(spec["data"])
     shape = parent.shape
-    indices = tuple(None if i is None else i % s for i, s in zip(spec["indices"], shape))
+    neg = list(spec.get("neg") or []) + [False] * len(shape)      # an index may be given counting from the end (-1 = last plane)
+    indices = tuple(None if i is None else (i % s - s if n else i % s) for i, s, n in zip(spec["indices"], shape, neg))
     idata = IndexedData(parent, indices)
     rounds = [indices]
     if spec.get("indices2") is not None:
-        rounds.append(tuple(None if a is None else b % s for a, b, s in zip(indices, spec["indices2"], shape)))
+        rounds.append(tuple(None if a is None else (b % s - s if n else b % s) for a, b, s, n in zip(indices, spec["indices2"], shape, neg[::-1])))
     for rnd, ind in enumerate(rounds):
         if rnd:
             idata.indices = ind
@@ -369,6 +370,8 @@ def fn_indexed(spec, rec):
                     raise Mismatch("indexed/compute_histogram-subset", {"got": np.asarray(got_h).tolist(), "expected": exp_h.tolist(), "indices": list(ind), "round": rnd})
     rec.nt(any(i is not None for i in indices) and any(i is None for i in indices))
     rec.label("parent-ndim:%d" % len(shape), "rounds:%d" % len(rounds), "view" if spec.get("use_view") else "noview")
+    if any(i is not None and i < 0 for r in rounds for i in r):
+        rec.label("negative-index")
 
 
 # --------------------------------------------------------------------------- generators
@@ -407,7 +410,7 @@ def indexed_cases(draw):
     ind2 = draw(st.one_of(st.none(), st.lists(st.integers(0, 5), min_size=nd, max_size=nd)))
     views = [draw(gen.slice_spec(3))[1:] for _ in range(nd)]
     kinds = ["ineq", "range", "mask", "slice", "roi", "element", "base", "multirange"]
-    return {"data": dspec, "indices": ind, "indices2": ind2, "view": views, "use_view": draw(st.booleans()),
+    return {"data": dspec, "indices": ind, "indices2": ind2, "neg": draw(st.lists(st.booleans(), min_size=nd, max_size=nd)), "view": views, "use_view": draw(st.booleans()),
             "tree": draw(gen.tree_spec(dspec, max_leaves=2, kinds=kinds)),
             "stats": draw(st.lists(st.sampled_from(["minimum", "maximum", "mean", "sum", "median"]), min_size=1, max_size=2, unique=True))}
 
